@@ -26,6 +26,9 @@ func idToVal(id int, kind byte) interface{} {
 	if kind == 'b' {
 		return bigDom[id%4]
 	}
+	if kind == 'p' {
+		return fnzoo.MkSP(id)
+	}
 	return id
 }
 
@@ -91,7 +94,12 @@ func stargets() []starget {
 			}
 			return -1200 - a[0]%4
 		}},
+		// a comparable struct parameter with a pointer and an interface-holding-a-pointer field: condition value and call
+		// argument are built separately (deep-equal, not ==)
+		{"FPtrS", 1, []byte{'p', 'i'}, 0, func(b *mocker.Builder) mocker.ExportedMocker { return b.Func(fnzoo.FPtrS) }, func(a []int) int { return fnzoo.FPtrS(fnzoo.MkSP(a[0]), a[1]) }},
 		{"T.M", 1, []byte{'i'}, 0, func(b *mocker.Builder) mocker.ExportedMocker { return b.Struct(&fnzoo.T{}).Method("M") }, func(a []int) int { return theT.M(a[0]) }},
+		// an interface method (its mocker has its own Return/Returns/When code)
+		{"I.M", 1, []byte{'i'}, 0, func(b *mocker.Builder) mocker.ExportedMocker { return c12AdaptI(b.Interface(&c12IV).Method("M")) }, func(a []int) int { return c12IV.M(a[0]) }},
 		{"T.V", 1, []byte{'i'}, 0, func(b *mocker.Builder) mocker.ExportedMocker { return b.Struct(fnzoo.T{}).Method("V") }, func(a []int) int { return fnzoo.T{K: 2}.V(a[0]) }},
 		{"T.MV", 1, []byte{'i'}, 'i', func(b *mocker.Builder) mocker.ExportedMocker { return b.Struct(&fnzoo.T{}).Method("MV") }, func(a []int) int { return theT.MV(a[0], a[1:]...) }},
 	}
@@ -274,9 +282,18 @@ func (t *starget) apply(m mocker.ExportedMocker, cf xconfig) {
 		if t.nout == 0 {
 			w = m.Return()
 		} else {
-			w = m.Return(t.results(cf.Default[0])...)
-			for _, r := range cf.Default[1:] {
-				w = w.AndReturn(t.results(r)...)
+			if t.nout == 1 && len(cf.Default) >= 2 && len(cf.Default)%2 == 0 {
+				// the default sequence given in one Returns(v1..vn) call on the mocker itself (its own code path per mocker kind)
+				vs := make([]interface{}, len(cf.Default))
+				for i, r := range cf.Default {
+					vs[i] = r
+				}
+				w = m.Returns(vs...)
+			} else {
+				w = m.Return(t.results(cf.Default[0])...)
+				for _, r := range cf.Default[1:] {
+					w = w.AndReturn(t.results(r)...)
+				}
 			}
 		}
 	case cf.FirstWhen != nil:
